@@ -56,7 +56,17 @@ CodeVecs ==
        [op |-> "CodeSweep", fn |-> fn, from |-> -5, to |-> 300, in |-> Rep(n, 255), cls |-> "sizes"])
   \o Cross2(<< "base32.DecodeString(byte)", "base32.DecodeStringNoPadding(byte)", "base64.DecodeString(byte)" >>, << << >>, << 97 >>, << 97, 97, 97 >>, << 97, 97, 97, 97, 97, 97, 97 >>, << 97, 61 >> >>,
        LAMBDA fn, s : [op |-> "CodeSweep", fn |-> fn, from |-> 0, to |-> 255, in |-> s, cls |-> "bytevalues"])
-Vecs == ByteVecs \o RandVecs \o CodeVecs
+\* every exported package-level function of the tree (registry generated from source at build time), per package; structured
+\* arguments come from a pool of values the library returned for these encodings
+ApiPkgs == << "base32.", "base64.", "certificate.", "data.", "destination.", "encrypted_leaseset.", "fuzz/", "key_certificate.", "keys_and_cert.", "lease.",
+             "lease_set.", "lease_set2.", "meta_leaseset.", "offline_signature.", "router_address.", "router_identity.", "router_info.", "session_key.",
+             "session_tag.", "signature." >>
+ApiSeeds == [i \in 1..Len(All) |-> [fn |-> All[i][1], in |-> All[i][2]] @@ All[i][3]]
+ApiCombos == IF Thorough THEN 1500 ELSE 48
+ApiVecs == SeqMap(LAMBDA p : [op |-> "ApiSweep", fn |-> "api", only |-> p, seeds |-> ApiSeeds, combos |-> ApiCombos, cls |-> p], ApiPkgs)
+           \o << [op |-> "ApiSweep", fn |-> "api", only |-> "", seeds |-> << >>, combos |-> ApiCombos, cls |-> "all/emptypool"] >>
+CONSTANT Part       \* "all" | "api" (the extension check X03 replays only the API sweep)
+Vecs == IF Part = "api" THEN ApiVecs ELSE ByteVecs \o RandVecs \o CodeVecs \o ApiVecs
 VARIABLE done
 Init == done = FALSE
 Next == ~done /\ ndJsonSerialize(OutFile, Vecs) /\ PrintT(<< "GENERATED", Len(Vecs) >>) /\ done' = TRUE
